@@ -383,9 +383,16 @@ func (k *Keeper) ApplyMessageWithConfig(ctx sdk.Context,
 		// take over the nonce management from evm:
 		// - reset sender's nonce to msg.Nonce() before calling evm.
 		// - increase sender's nonce by one no matter the result.
+		// The ante handler has already advanced the sequence for every message of the
+		// transaction, so never move it back below the value it had before this message.
+		nonceBefore := stateDB.GetNonce(sender.Address())
 		stateDB.SetNonce(sender.Address(), msg.Nonce())
 		ret, _, leftoverGas, vmErr = evm.Create(sender, msg.Data(), leftoverGas, msg.Value())
-		stateDB.SetNonce(sender.Address(), msg.Nonce()+1)
+		nonceAfter := msg.Nonce() + 1
+		if nonceBefore > nonceAfter {
+			nonceAfter = nonceBefore
+		}
+		stateDB.SetNonce(sender.Address(), nonceAfter)
 	} else {
 		ret, leftoverGas, vmErr = evm.Call(sender, *msg.To(), msg.Data(), leftoverGas, msg.Value())
 	}
